@@ -75,6 +75,8 @@ typedef struct vsmall { char d[VSMALL_CAP]; size_t n; } vsmall;
 static inline bool vsmall_empty(const vsmall *s) { return s->n == 0; }
 static inline size_t vsmall_size(const vsmall *s) { return s->n; }
 static inline void vsmall_clear(vsmall *s) { s->n = 0; }
+static inline char vsmall_front(const vsmall *s) { VERIF_STD_PRE(s->n > 0, "string::front on an empty string"); return s->d[0]; }
+static inline char vsmall_back(const vsmall *s) { VERIF_STD_PRE(s->n > 0, "string::back on an empty string"); return s->d[s->n - 1]; }
 static inline void vsmall_push_back(vsmall *s, char c) { VERIF_STD_PRE(s->n < VSMALL_CAP, "ghost capacity of the digit string"); s->d[s->n] = c; s->n = s->n + 1; }
 static inline int verif_digit(char c) { return (c >= '0' && c <= '9') ? c - '0' : (c >= 'a' && c <= 'f') ? c - 'a' + 10 : (c >= 'A' && c <= 'F') ? c - 'A' + 10 : 99; }
 /* std::stoll / std::stoul / std::stoi on a string without sign or whitespace, [string.conversions]:
